@@ -2406,7 +2406,12 @@ def k_tsw(u):
     L("type %s struct{ R %s }" % (Ci, t))
     L()
     L("func (s %s) Area() %s { return s.S * s.S }" % (Sq, t))
-    L("func (c *%s) Area() %s { return c.R * 3 }" % (Ci, t))
+    L("func (c *%s) Area() %s {" % (Ci, t))
+    L("\tif c == nil {")        # a typed nil pointer may reach this method through the interface case of the type switch
+    L("\t\treturn %s" % c(u, t, 90, 99))
+    L("\t}")
+    L("\treturn c.R * 3")
+    L("}")
     L()
     cls = u.nm("Cls")
     L("func %s(v any) int {" % cls)
